@@ -64,63 +64,117 @@ theorem mid_class (c : Char) : SetHas Ucd.ascii (midItems tables.pattern.body) c
   simp [tables, midItems, SetHas, CItem.test, char_eq_iff_toNat, safeMid, safeHead, letterI]
   omega
 
-theorem last_class (c : Char) : ¬ SetHas Ucd.ascii (lastItems tables.pattern.body) c ↔ c ≠ '.' := by
-  simp [tables, lastItems, SetHas, CItem.test]
+theorem last_class (c : Char) :
+    LastOk Ucd.ascii (lastNeg tables.pattern.body) (lastItems tables.pattern.body) c ↔ safeLast c = true := by
+  simp [tables, lastItems, lastNeg, LastOk, SetHas, CItem.test, char_eq_iff_toNat, safeLast, safeHead, letterI]
+  omega
 
 /-- **Which callbacks are accepted**: exactly the texts of the grammar — a letter / `$` / `_`, then one or more of
-letters, digits, `$ _ . [ ]`, then ONE character that is anything but `.`, then optionally a line feed.  For texts of
-every length; `run_sound` / `run_complete` of C01 connect the backtracking matcher with the language. -/
+letters, digits, `$ _ . [ ]`, then one of letters, digits, `$ _ ]`; nothing after it (`\Z`).  For texts of every
+length; `run_sound` / `run_complete` of C01 connect the backtracking matcher with the language. -/
 theorem accepts_iff_grammar (cb : Text) : accepts tables.pattern cb = true ↔ CbGrammar cb := by
   rw [accepts_of_shape tables.pattern (by decide) (by decide) cb]
   simp only [CbGrammar, head_class, mid_class, last_class]
+  have he : tables.pattern.endAnchor = .endOfString := by decide
+  simp only [he, EndAnchor.ok, beq_iff_eq]
+  constructor
+  · rintro ⟨h, mid, l, tail, rfl, h1, h2, h3, h4, rfl⟩
+    exact ⟨h, mid, l, rfl, h1, h2, h3, h4⟩
+  · rintro ⟨h, mid, l, rfl, h1, h2, h3, h4⟩
+    exact ⟨h, mid, l, [], rfl, h1, h2, h3, h4, rfl⟩
 
-/-- Everything the check lets through is safe EXCEPT possibly its last character and a line feed after it.  PARTIAL:
-the property wants `AllSafe cb`; the final `[^.]` of the pattern accepts any character there (finding F-X03a). -/
-theorem accepted_callback_safe_partial (cb : Text) (h : accepts tables.pattern cb = true) :
-    ∃ pre l tail, cb = pre ++ l :: tail ∧ 2 ≤ pre.length ∧ AllSafe pre ∧ (∀ c, pre.head? = some c → safeHead c = true) ∧
-      l ≠ '.' ∧ (tail = [] ∨ tail = ['\n']) := by
-  obtain ⟨hd, mid, l, tail, rfl, hh, hne, hall, hl, ht⟩ := (accepts_iff_grammar cb).mp h
-  refine ⟨hd :: mid, l, tail, by simp, ?_, ?_, ?_, hl, ht⟩
+theorem safeLast_safeMid (c : Char) (h : safeLast c = true) : safeMid c = true ∧ c ≠ '.' ∧ c ≠ '[' := by
+  refine ⟨?_, ?_, ?_⟩
+  · simp only [safeLast, safeMid, Bool.or_eq_true, Bool.and_eq_true, decide_eq_true_eq, beq_iff_eq] at h ⊢
+    rcases h with (h | h) | h
+    · exact Or.inl (Or.inl (Or.inl (Or.inl h)))
+    · exact Or.inl (Or.inl (Or.inl (Or.inr h)))
+    · exact Or.inr h
+  · rintro rfl; simp [safeLast, safeHead, letterI] at h
+  · rintro rfl; simp [safeLast, safeHead, letterI] at h
+
+/-- **(1) the safety statement, FULL since a7b5ff8**: every callback the check lets through — of any length — consists
+ONLY of identifier / member / index characters (`safeMid`: letters, digits, `$ _ . [ ]`), starts with a letter, `$` or
+`_`, has at least three characters and does not end in `.` or `[`.  In particular no line feed, bracket, quote,
+semicolon, operator or white space can reach the script. -/
+theorem accepted_callback_safe (cb : Text) (h : accepts tables.pattern cb = true) :
+    AllSafe cb ∧ (∀ c, cb.head? = some c → safeHead c = true) ∧ 3 ≤ cb.length ∧
+      (∀ c, cb.getLast? = some c → safeLast c = true) := by
+  obtain ⟨hd, mid, l, rfl, hh, hne, hall, hl⟩ := (accepts_iff_grammar cb).mp h
+  refine ⟨?_, ?_, ?_, ?_⟩
+  · intro c hc
+    simp only [List.mem_cons, List.mem_append, List.not_mem_nil, or_false] at hc
+    rcases hc with rfl | hc | rfl
+    · simp [safeMid, hh]
+    · exact hall c hc
+    · exact (safeLast_safeMid c hl).1
+  · intro c hc
+    simp only [List.head?_cons, Option.some.injEq] at hc
+    subst hc; exact hh
   · cases mid with
     | nil => exact absurd rfl hne
     | cons _ _ => simp
   · intro c hc
-    simp only [List.mem_cons] at hc
-    rcases hc with rfl | hc
-    · simp [safeMid, hh]
-    · exact hall c hc
-  · intro c hc
-    simp only [List.head?_cons, Option.some.injEq] at hc
-    subst hc; exact hh
+    have : (hd :: (mid ++ [l])).getLast? = some l := by
+      rw [show hd :: (mid ++ [l]) = (hd :: mid) ++ [l] by simp, List.getLast?_concat]
+    rw [this] at hc
+    cases hc; exact hl
 
 /-- A callback made of safe characters only is accepted iff it has at least three characters, starts with a letter,
-`$` or `_`, and does not end in `.` -/
+`$` or `_`, and ends in a letter, digit, `$`, `_` or `]` -/
 theorem safe_callback_accepted_iff (cb : Text) (hs : AllSafe cb) :
     accepts tables.pattern cb = true ↔
-      ∃ h mid l, cb = h :: (mid ++ [l]) ∧ safeHead h = true ∧ mid ≠ [] ∧ l ≠ '.' := by
+      ∃ h mid l, cb = h :: (mid ++ [l]) ∧ safeHead h = true ∧ mid ≠ [] ∧ safeLast l = true := by
   rw [accepts_iff_grammar]
   constructor
-  · rintro ⟨h, mid, l, tail, rfl, hh, hne, hall, hl, ht⟩
-    rcases ht with rfl | rfl
-    · exact ⟨h, mid, l, rfl, hh, hne, hl⟩
-    · have := hs '\n' (by simp)
-      simp [safeMid, safeHead, letterI] at this
+  · rintro ⟨h, mid, l, rfl, hh, hne, hall, hl⟩
+    exact ⟨h, mid, l, rfl, hh, hne, hl⟩
   · rintro ⟨h, mid, l, rfl, hh, hne, hl⟩
-    refine ⟨h, mid, l, [], rfl, hh, hne, ?_, hl, Or.inl rfl⟩
+    refine ⟨h, mid, l, rfl, hh, hne, ?_, hl⟩
     intro c hc
     exact hs c (by simp [hc])
 
-/-- F-X03a, witnesses: `ab(`, `ab;` + LF, `a.b"` are accepted although `(`, `;`, LF, `"` are not safe -/
-theorem last_character_unconstrained :
-    accepts tables.pattern "ab(".toList = true ∧ accepts tables.pattern "ab;\n".toList = true ∧
-    accepts tables.pattern "a.b\"".toList = true ∧
-    safeMid '(' = false ∧ safeMid ';' = false ∧ safeMid '\n' = false ∧ safeMid '"' = false ∧
-    accepts tables.pattern "cb".toList = false ∧ accepts tables.pattern "a(b".toList = false := by
+/-- the witnesses of F-X03a are refused now (and the functional corners are as before) -/
+theorem last_character_constrained :
+    accepts tables.pattern "ab(".toList = false ∧ accepts tables.pattern "ab;\n".toList = false ∧
+    accepts tables.pattern "a.b\"".toList = false ∧ accepts tables.pattern "abc\n".toList = false ∧
+    accepts tables.pattern "ab.".toList = false ∧ accepts tables.pattern "ab[".toList = false ∧
+    accepts tables.pattern "cb".toList = false ∧ accepts tables.pattern "a(b".toList = false ∧
+    accepts tables.pattern "a.b[0]".toList = true ∧ accepts tables.pattern "$_1".toList = true := by
   decide
+
+/-- REGRESSION fact about the pattern BEFORE a7b5ff8 (`…[^.]$`, F-X03a): its last character was unconstrained — `ab(`,
+`ab;` + LF, `a.b"` were accepted although `(`, `;`, LF, `"` are not safe -/
+theorem last_character_unconstrained_old :
+    accepts oldPattern "ab(".toList = true ∧ accepts oldPattern "ab;\n".toList = true ∧
+    accepts oldPattern "a.b\"".toList = true ∧
+    safeMid '(' = false ∧ safeMid ';' = false ∧ safeMid '\n' = false ∧ safeMid '"' = false ∧
+    ¬ AllSafe "ab(".toList := by
+  refine ⟨by decide, by decide, by decide, by decide, by decide, by decide, by decide, ?_⟩
+  intro h
+  have := h '(' (by decide)
+  revert this; decide
+
+/-- … and what the old pattern accepted, exactly: the old grammar (for every length) -/
+theorem old_pattern_accepts_iff (cb : Text) : accepts oldPattern cb = true ↔ CbGrammarOld cb := by
+  rw [accepts_of_shape oldPattern (by decide) (by decide) cb]
+  have hH : ∀ c, SetHas Ucd.ascii (headItems oldPattern.body) c ↔ safeHead c = true := by
+    intro c
+    simp [oldPattern, headItems, SetHas, CItem.test, char_eq_iff_toNat, safeHead, letterI]
+    omega
+  have hM : ∀ c, SetHas Ucd.ascii (midItems oldPattern.body) c ↔ safeMid c = true := by
+    intro c
+    simp [oldPattern, midItems, SetHas, CItem.test, char_eq_iff_toNat, safeMid, safeHead, letterI]
+    omega
+  have hL : ∀ c, LastOk Ucd.ascii (lastNeg oldPattern.body) (lastItems oldPattern.body) c ↔ c ≠ '.' := by
+    intro c
+    simp [oldPattern, lastItems, lastNeg, LastOk, SetHas, CItem.test]
+  have he : oldPattern.endAnchor = .dollar := rfl
+  simp only [CbGrammarOld, hH, hM, hL, he, EndAnchor.ok, dollarOk, Bool.or_eq_true, beq_iff_eq]
 
 /-- **(1)** For EVERY query string the JSONP renderer either raises (`TypeError` for an unserializable value, 400 for a
 refused callback) or answers; without the parameter the answer is the plain JSON text; with it (the LAST value counts)
-the answer is `/**/` cb `(` json `);` and `cb` is in the grammar. -/
+the answer is `/**/` cb `(` json `);` and `cb` is in the grammar (hence, by `accepted_callback_safe`, all safe). -/
 theorem jsonp_answer (regs : Regs) (pn : Text) (params : List (Text × Text)) (v : Val) (cur dflt : Text) :
     (serialize regs v = none ∧ renderJsonp tables regs pn params v cur dflt = .error .typeError) ∨
     ∃ js, serialize regs v = some js ∧
